@@ -127,9 +127,7 @@ def run_case(case):
             use = on & ~np.isnan(exp)
             if t == 0 and not on.all():
                 viols.append(violation("value==V[state]", "simulate", "ROW", "period-0 agents are not on the grid (harness error?)", params=vname))
-            with np.errstate(invalid="ignore"):
-                ok = np.abs(vals - exp) <= 1e-12 * (1 + np.abs(exp))
-            ok |= vals == exp
+            ok = e1.refmodel.close(vals, exp, 1e-12)  # infinities must agree exactly
             cnt += int(use.sum())
             if t > 0:
                 on_later += int(use.sum())
